@@ -252,3 +252,98 @@ def strict_lookahead(ctx, prog):
             ok2, w2 = False, "look-ahead position %s is not a counter" % show(st)
         ctx.ob("SA-GUARD", "strict parser: the look-ahead reads the byte at the number of consumed input bytes", ok2, w2, f.loc(t["sp"]))
     ctx.ob("SA-GUARD", "strict parser: the look-ahead byte is re-fetched exactly when the bounded iterator ran dry (no other condition)", ok, why, f.loc(sites[0][1]["sp"]) if sites else f.loc())
+
+
+def block_size_field(ctx, prog):
+    """parse_block_size_from_bytes: each outcome is reached under exactly the grammar's condition (necessary conditions
+    from the controlling branch edges) and carries the documented position"""
+    R = "SA-GUARD"
+    f = prog.fn("hash::algorithms::parse_block_size_from_bytes")
+    ctx.visit(f)
+    sy = Sym(f)
+    item = r"\(<core::iter::Enumerate<I> as core::iter::Iterator>::next\(local:\w*\) as Some\)\.0"
+    ch = item + r"\.1"
+    idx = item + r"\.0"
+    import re as _re
+
+    def conds_at(b):
+        out = []
+        for c in path_conds(f, sy, b):
+            e = c[0]
+            if e[0] == "discr":
+                out.append("discr(%s) %s %s" % (canon(e[1]), c[1], list(c[2])))
+                continue
+            a = bool_atom(c)
+            if a is None:
+                out.append("%s %s %s" % (canon(strip(c[0])), c[1], list(c[2])))
+            elif a[0] == "truth":
+                out.append("%s is %s" % (canon(strip(a[1])), a[2]))
+            else:
+                out.append("%s(%s,%s)" % (a[0], canon(strip(a[1])), canon(strip(a[2]))))
+        return out
+
+    # outcome blocks by error kind
+    kinds = {}
+    for i, j, s in f.stmts():
+        if s["s"] == "assign" and s["rv"]["r"] == "agg" and s["rv"]["kind"].get("adt", "").endswith("parser_state::ParseError"):
+            e = sy.rvalue(s["rv"])
+            kind = e[2][0][1].split("::")[-1] if e[2][0][0] == "agg" else "?"
+            origin = e[2][1][1].split("::")[-1] if e[2][1][0] == "agg" else "?"
+            kinds[kind] = (i, origin, canon(strip(e[2][2])), s)
+    ctx.floor(R, len(kinds), 6, "error outcomes of the block-size field parser")
+    IS_COLON = r"^%s in \[58\]$" % ch
+    NOT_COLON = r"^%s notin \[58\]$" % ch
+    IDX0 = r"^Eq\(%s,0\)$" % idx
+    IDXN0 = r"^Ne\(%s,0\)$" % idx
+    INRANGE_T = r"^local:is_block_size_in_range_\d+ is True$"
+    INRANGE_F = r"^local:is_block_size_in_range_\d+ is False$"
+    DIG_LO = r"^Le\((48=)?48,%s\)$" % ch
+    DIG_HI = r"^Le\(%s,(57=)?57\)$" % ch
+    want = {
+        "UnexpectedCharacter": ([NOT_COLON], r"^%s$" % idx),
+        "BlockSizeStartsWithZero": ([DIG_LO, DIG_HI, INRANGE_T, r"^Eq\(local:block_size_\d+,0\)$"], r"^0$"),
+        "BlockSizeIsEmpty": ([IS_COLON, IDX0], r"^0$"),
+        "BlockSizeIsTooLarge": ([IS_COLON, IDXN0, INRANGE_F], r"^0$"),
+        "BlockSizeIsInvalid": ([IS_COLON, IDXN0, INRANGE_T, r"^internals::hash::block::block_size::is_valid\(local:block_size_\d+\) is False$"], r"^0$"),
+        "UnexpectedEndOfString": ([r"^discr\(<core::iter::Enumerate<I> as core::iter::Iterator>::next\(local:\w*\)\) in \[0\]$"], r"^core::slice::<impl \[T\]>::len\(param:bytes\)$"),
+    }
+    for kind, (rxs, posrx) in want.items():
+        if kind not in kinds:
+            ctx.ob(R, "parse_block_size_from_bytes: outcome %s exists" % kind, False, "not found", f.loc())
+            continue
+        b, origin, pos, s = kinds[kind]
+        cs = conds_at(b)
+        missing = [rx for rx in rxs if not any(_re.search(rx, c) for c in cs)]
+        ok = not missing and origin == "BlockSize" and _re.search(posrx, pos) is not None
+        ctx.ob(R, "parse_block_size_from_bytes: %s is raised under the grammar's condition, with origin BlockSize and the documented position" % kind, ok,
+               ("conditions %s; position %s" % (cs, pos))[:400] if not ok else "position %s; %d conditions matched" % (pos, len(rxs)), f.loc(s["sp"]))
+    # Ok outcome
+    oks = G.blocks_returning_variant(f, sy, "Result::Ok")
+    okc = conds_at(oks[0]) if oks else []
+    need = [IS_COLON, IDXN0, INRANGE_T, r"^internals::hash::block::block_size::is_valid\(local:block_size_\d+\) is True$"]
+    missing = [rx for rx in need if not any(_re.search(rx, c) for c in okc)]
+    val = None
+    for i, j, s in f.stmts():
+        if s["s"] == "assign" and s["lhs"]["l"] == 0 and s["rv"]["r"] == "agg" and s["rv"]["kind"].get("variant") == "Ok":
+            val = canon(strip(sy.operand(s["rv"]["ops"][0])))
+    okv = val is not None and _re.search(r"^Tuple\{local:block_size_\d+,Add\(%s,1\)\}$" % idx, val) is not None
+    ctx.ob(R, "parse_block_size_from_bytes: Ok((block_size, index+1)) only at ':' with a non-empty, in-range, valid block size", bool(oks) and not missing and okv,
+           ("value %s; conditions %s" % (val, okc))[:400], f.loc())
+    # the accumulation: block_size = checked_mul(block_size, 10).and_then(|x| x.checked_add((ch - b'0') as u32))
+    acc = None
+    for i, t in f.calls():
+        if callee_of(t).endswith("Option::<T>::and_then"):
+            acc = sy.call(t, i)
+    ok = False
+    why = "no and_then"
+    if acc is not None:
+        a0 = strip(acc[2][0])
+        ok = a0[0] == "call" and a0[1].endswith("checked_mul") and const_value(a0[2][1]) == 10 and strip(a0[2][0])[0] == "local"
+        cl = strip(acc[2][1])
+        why = show(acc)[:160]
+        if ok and cl[0] == "agg" and cl[1].startswith("Closure:"):
+            g = prog.get(cl[1][len("Closure:"):])
+            ce = strip(Sym(g).local(0)) if g else None
+            ok = ce is not None and ce[0] == "call" and ce[1].endswith("checked_add") and canon(strip(ce[2][1])).startswith("Sub(") and canon(strip(ce[2][1])).endswith(",48)")
+            why += " ; closure: %s" % (show(ce)[:120] if ce else None)
+    ctx.ob(R, "parse_block_size_from_bytes accumulates block_size*10 + (ch - '0') with overflow detection (checked_mul / checked_add)", ok, why, f.loc())
